@@ -1,7 +1,7 @@
 (* Euclidean division: the 3-by-2 step (quotient estimate, at most two corrections) and the 2-by-1 step built from
    it are exact at every K, given exactness at the limb level; by induction on k. *)
 From Coq Require Import ZArith Lia Bool.
-From C06 Require Import Model ProofsBase ProofsRepr ProofsAdd ProofsSubW ProofsMul ProofsKara ProofsMulTop.
+From C06 Require Import Model ProofsBase ProofsRepr ProofsAdd ProofsSubW ProofsBits ProofsShift ProofsMul ProofsKara ProofsMulTop.
 Local Open Scope Z_scope.
 Ltac Zify.zify_post_hook ::= Z.div_mod_to_equations.
 
@@ -185,13 +185,15 @@ Proof.
   pose proof (B_pos k) as HB. destruct (B_even k) as (hb & Ehb & Hhb).
   pose proof (val_range _ _ Wb0) as Rb0. pose proof (val_range _ _ Wb1) as Rb1.
   pose proof (val_range _ _ Wah0) as Rah0. pose proof (val_range _ _ Wah1) as Rah1.
-  assert (Hn1 : B k <= 2 * val k b1) by (clear - Hnorm Rb0 Rb1 HB Ehb Hhb; nia).
+  assert (Hn1 : B k <= 2 * val k b1).
+  { destruct (Z.le_gt_cases (B k) (2 * val k b1)) as [|Hc]; [assumption|exfalso].
+    assert (2 * val k b1 <= B k - 2) by lia. clear - Hnorm Rb0 Rb1 HB H. nia. }
   assert (Hl1 : val k ah1 * B k + val k ah0 < val k b1 * B k + val k b0) by lia.
   pose proof (H32 ah1 ah0 al1 b1 b0 Wah1 Wah0 Wal1 Wb1 Wb0 Hn1 Hl1) as H1.
   destruct (d32 ah1 ah0 al1 b1 b0) as [[qh s1] s0]. destruct H1 as (Wqh & Ws1 & Ws0 & E1 & L1).
   pose proof (H32 s1 s0 al0 b1 b0 Ws1 Ws0 Wal0 Wb1 Wb0 Hn1 L1) as H2.
   destruct (d32 s1 s0 al0 b1 b0) as [[ql r1] r0]. destruct H2 as (Wql & Wr1 & Wr0 & E2 & L2).
   cbn [fst snd]. split; [split; assumption|]. split; [split; assumption|].
-  rewrite !val_S. cbn [fst snd]. split; [|lia].
+  rewrite ?val_S; cbn [fst snd]. split; [|lia].
   clear - E1 E2. mulhyp E1 (B k). lia.
 Qed.
